@@ -127,8 +127,8 @@ fn apply_cw<G: TooDeeOpsMut<u8> + CopyOps<u8>>(o: &CopyWithin, g: &mut G) {
     g.copy_within((o.tl, o.br), o.dest);
 }
 
-pub fn copy_within(kind: u8, pc: usize, pr: usize, sc: usize, sr: usize, ec: usize, er: usize, order: u8, height: usize, must_panic: bool) {
-    let cells = nd::bytes::<16>();
+pub fn copy_within_b<const B: usize>(kind: u8, pc: usize, pr: usize, sc: usize, sr: usize, ec: usize, er: usize, order: u8, height: usize, must_panic: bool) {
+    let cells = nd::bytes::<B>();
     let gm = geometry(kind, pc, pr, Pick::Fixed((sc, sr), (ec, er)));
     let (w, h) = gm.size;
     let o = if must_panic {
@@ -192,6 +192,10 @@ pub fn copy_within(kind: u8, pc: usize, pr: usize, sc: usize, sr: usize, ec: usi
         assert!(arr[y * pc + x] == want, "ORACLE: copy_within: destination is not the source's prior contents / another cell changed");
     }
     end_reached!();
+}
+
+pub fn copy_within(kind: u8, pc: usize, pr: usize, sc: usize, sr: usize, ec: usize, er: usize, order: u8, height: usize, must_panic: bool) {
+    copy_within_b::<16>(kind, pc, pr, sc, sr, ec, er, order, height, must_panic)
 }
 
 /// Zero-sized elements: a size mismatch must still be rejected (and equal sizes accepted).
